@@ -412,7 +412,16 @@ func parseString(p *peeker) (node, hcl.Diagnostics) {
 	if err != nil {
 		var errRange hcl.Range
 		if serr, ok := err.(*json.SyntaxError); ok {
+			// Offset counts the bytes consumed when the error was detected,
+			// which for an unterminated string is the whole token, so we
+			// keep the marker on the last byte of the token in that case.
 			errOfs := serr.Offset
+			if max := int64(len(tok.Bytes)) - 1; errOfs > max {
+				errOfs = max
+			}
+			if errOfs < 0 {
+				errOfs = 0
+			}
 			errPos := tok.Range.Start
 			errPos.Byte += int(errOfs)
 
